@@ -299,7 +299,7 @@ func (r *pnRun) check(n *pnNode, what string) bool {
 				}
 			}
 			// the pool holds exactly the blocks of the uncommitted chain
-			for id := range r.known[a] {
+			for _, id := range sortedIds(r.known[a]) {
 				has := n.ch.GetPatch(a, id) != nil
 				if has && !pooled[id] {
 					r.fail("%s after %s: GetPatch(%s, %s) answers a patch, but the block is not on the account's uncommitted chain [%s] (last confirmed %s): a block that was displaced / rolled back / never accepted is still held by the pool - sync and gossip take a block for which GetPatch answers as already applied",
